@@ -43,6 +43,7 @@ pub enum Extra {
     None,
     Crash(CrashPoint),
     Fault(FaultCase),
+    Corrupt(crate::corrupt::Alteration),
 }
 
 #[derive(Clone, Debug, Serialize, Deserialize, PartialEq)]
@@ -57,6 +58,7 @@ pub enum Engine {
     Conf,
     Crash,
     Fault,
+    Corrupt,
 }
 
 #[derive(Default, Clone, Serialize)]
@@ -70,7 +72,7 @@ pub struct Agg {
     pub backend_calls: u64,
 }
 
-fn add_exec(a: &mut ExecStats, b: &ExecStats) {
+pub fn add_exec(a: &mut ExecStats, b: &ExecStats) {
     a.api_calls += b.api_calls;
     a.txns += b.txns;
     a.commits += b.commits;
@@ -104,7 +106,7 @@ fn add_exec(a: &mut ExecStats, b: &ExecStats) {
     a.ownership_audits += b.ownership_audits;
 }
 
-fn add_disk(a: &mut crate::disk::Stats, b: &crate::disk::Stats) {
+pub fn add_disk(a: &mut crate::disk::Stats, b: &crate::disk::Stats) {
     for i in 0..6 {
         a.calls[i] += b.calls[i];
         a.faults_fired[i] += b.faults_fired[i];
@@ -116,7 +118,7 @@ fn add_disk(a: &mut crate::disk::Stats, b: &crate::disk::Stats) {
     a.grows += b.grows;
 }
 
-fn add_crash(a: &mut CrashStats, b: &CrashStats) {
+pub fn add_crash(a: &mut CrashStats, b: &CrashStats) {
     a.images += b.images;
     a.nested_images += b.nested_images;
     a.recovered_to_newest += b.recovered_to_newest;
@@ -126,6 +128,11 @@ fn add_crash(a: &mut CrashStats, b: &CrashStats) {
     a.with_lost_len += b.with_lost_len;
     a.pending_total += b.pending_total;
     a.post_workloads += b.post_workloads;
+    a.corrupt_reported_at_open += b.corrupt_reported_at_open;
+    a.corrupt_reported_by_integrity_err += b.corrupt_reported_by_integrity_err;
+    a.corrupt_reported_by_panic += b.corrupt_reported_by_panic;
+    a.corrupt_repaired_ok_false += b.corrupt_repaired_ok_false;
+    a.corrupt_harmless_ok_true += b.corrupt_harmless_ok_true;
 }
 
 pub struct RunOut {
@@ -163,6 +170,9 @@ pub fn plan_for(seed: u64, run: u64, prop: &str) -> Plan {
 pub fn execute(plan: &Plan, engine: Engine, crash_seed: u64, images: usize, only: Option<&Extra>) -> RunOut {
     if engine == Engine::Fault {
         return execute_fault(plan, crash_seed, images, only);
+    }
+    if engine == Engine::Corrupt {
+        return crate::corrupt::execute_corrupt(plan, crash_seed, images, only);
     }
     let mut ex = Exec::new(plan.cfg.clone(), Mode::Strict);
     ex.keep_lifetimes = engine == Engine::Crash;
@@ -336,7 +346,7 @@ pub fn minimise(rep: &Replay, engine: Engine, images: usize, max_secs: u64) -> R
                     }
                 }
             }
-            Extra::None => {}
+            Extra::None | Extra::Corrupt(_) => {}
         }
     }
     best
@@ -346,6 +356,7 @@ pub fn engine_of(name: &str) -> Engine {
     match name {
         "crash" => Engine::Crash,
         "fault" => Engine::Fault,
+        "corrupt" => Engine::Corrupt,
         _ => Engine::Conf,
     }
 }
@@ -355,6 +366,7 @@ pub fn engine_name(e: Engine) -> &'static str {
         Engine::Conf => "conf",
         Engine::Crash => "crash",
         Engine::Fault => "fault",
+        Engine::Corrupt => "corrupt",
     }
 }
 
@@ -632,7 +644,7 @@ pub fn explore(o: &Opts) -> i32 {
         "property_id": o.prop,
         "tier": o.tier,
         "seed": o.seed,
-        "level": if o.engine == Engine::Fault { "fault_enumeration" } else { "exploration" },
+        "level": if o.engine == Engine::Fault || o.engine == Engine::Corrupt { "fault_enumeration" } else { "exploration" },
         "wall_s": wall,
         "violations": violations,
         "coverage": {
